@@ -3,7 +3,10 @@
 From Coq Require Import List Arith PeanoNat Bool Permutation ZArith.
 Import ListNotations.
 Require Import Verif.Base.Res Verif.gen.UFSeq Verif.Egg.Model Verif.Egg.Rules Verif.Egg.CCDefs
-  Verif.Egg.CC Verif.Sched.Scheduler Verif.Sched.SchedulerProofs.
+  Verif.Egg.CC Verif.Sched.Scheduler Verif.Sched.SchedulerProofs
+  Verif.Sched.MatchesPrelude Verif.Sched.MatchesProofs.
+Require Verif.gen.MatchesFns.
+From Coq Require Import NArith.
 
 (** [Matches::instantiate] (scheduler.rs:114-166), for every vector of matches and every list of
     chosen indices in range (any order, duplicates allowed): it does not panic, the rows inserted
@@ -175,3 +178,129 @@ Proof.
   split; [vm_compute; reflexivity|].
   split; vm_compute; reflexivity.
 Qed.
+
+(* ====================================================================================== *)
+(** * Tier A: the methods of `impl Matches` REGENERATED from src/scheduler.rs (gen/MatchesFns.v)
+
+    [MatchesFns.instantiate matches chosen vars tuple_width all_chosen unit] is the statement-by-
+    statement translation of scheduler.rs:114-165 over the flat [Vec<Value>] ([list N]), usize
+    subtraction checked (underflow = Panic), slices / swaps / chunks panicking out of range, the
+    rows given to [table_action.insert] collected in order. *)
+
+(** REFINEMENT of the hand model by the regenerated code: for tuples of width [w > 0], at most [w]
+    variable columns and in-range choices, the regenerated function returns [Ok], inserts the rows
+    the hand model inserts (cut to the variable columns + the unit cell) and keeps the flattening of
+    the residual the hand model keeps. So [c18_instantiate_perm/_dups/_all], [c18_no_loss], ...
+    speak about the code as it is in the source now: moving [p -= 1] after the comparison,
+    truncating to [p] instead of [p * tuple_width], or dropping [.rev()] changes
+    [MatchesFns.instantiate] and breaks this proof. *)
+Theorem c18_src_instantiate_refines : forall (ms : list (list N)) (chosen : list nat)
+    (vars : list N) (w : nat) (all : bool) (u : N),
+  0 < w -> Forall (fun t => length t = w) ms -> length vars <= w ->
+  (all = false -> Forall (fun c => c < length ms) chosen) ->
+  exists ins res,
+    Scheduler.instantiate ms chosen all = Ok (ins, res) /\
+    MatchesFns.instantiate (concat ms) chosen vars w all u
+      = Ok (map (fun t => firstn (length vars) t ++ [u]) ins, concat res).
+Proof. exact instantiate_refines. Qed.
+Print Assumptions c18_src_instantiate_refines.
+
+(** [c18_instantiate_perm] over the regenerated function *)
+Theorem c18_src_instantiate_perm : forall (ms : list (list N)) (chosen : list nat) (vars : list N)
+    (w : nat) (u : N),
+  0 < w -> Forall (fun t => length t = w) ms -> length vars <= w ->
+  Forall (fun c => c < length ms) chosen ->
+  exists res,
+    MatchesFns.instantiate (concat ms) chosen vars w false u
+      = Ok (map (fun c => firstn (length vars) (nth c ms []) ++ [u]) chosen, concat res)
+    /\ Permutation res
+         (map (fun c => nth c ms [])
+              (filter (fun i => negb (existsb (Nat.eqb i) chosen)) (seq 0 (length ms)))).
+Proof. exact src_instantiate_perm. Qed.
+Print Assumptions c18_src_instantiate_perm.
+
+(** [c18_instantiate_all] over the regenerated function ([all_chosen] branch: [chunks]) *)
+Theorem c18_src_instantiate_all : forall (ms : list (list N)) (chosen : list nat) (vars : list N)
+    (w : nat) (u : N),
+  0 < w -> Forall (fun t => length t = w) ms -> length vars <= w ->
+  MatchesFns.instantiate (concat ms) chosen vars w true u
+    = Ok (map (fun t => firstn (length vars) t ++ [u]) ms, []).
+Proof. exact src_instantiate_all. Qed.
+Print Assumptions c18_src_instantiate_all.
+
+(** [Matches::new] (regenerated): [tuple_width = max(vars.len(), 1)], panics iff the length of the
+    vector is not a multiple of it *)
+Theorem c18_src_new_spec : forall (matches vars : list N),
+  let w := Nat.max (length vars) 1 in
+  (length matches mod w = 0 -> MatchesFns.new matches vars = Ok (matches, [], vars, w, false)) /\
+  (length matches mod w <> 0 -> MatchesFns.new matches vars = Panic).
+Proof. exact src_new_spec. Qed.
+Print Assumptions c18_src_new_spec.
+
+(** NO PANIC over the flat representation: for every vector [Matches::new] accepts and every list of
+    choices below [match_size()] (any order, duplicates allowed), with or without [choose_all]:
+    [instantiate] returns [Ok] (no usize underflow of [p], no slice / swap out of bounds, no division
+    by zero), and the residual it returns is accepted by [Matches::new] again — the assert of the
+    next step cannot fire. *)
+Theorem c18_src_instantiate_no_panic : forall (matches vars : list N) (chosen : list nat)
+    (all : bool) (u : N) m c v w a,
+  MatchesFns.new matches vars = Ok (m, c, v, w, a) ->
+  forall n, MatchesFns.match_size m c v w a = Ok n ->
+  Forall (fun i => i < n) chosen ->
+  exists ins res,
+    MatchesFns.instantiate m chosen v w all u = Ok (ins, res) /\
+    (exists M', MatchesFns.new res vars = Ok M') /\
+    (all = true -> res = [] /\ length ins = n) /\
+    (all = false -> length ins = length chosen /\
+       length res = (n - length (sort_dedup chosen n)) * w).
+Proof. exact src_instantiate_no_panic. Qed.
+Print Assumptions c18_src_instantiate_no_panic.
+
+(** [match_size] / [get_match] index arithmetic (regenerated) *)
+Theorem c18_src_match_size : forall (ms : list (list N)) chosen vars w all,
+  0 < w -> Forall (fun t => length t = w) ms ->
+  MatchesFns.match_size (concat ms) chosen vars w all = Ok (length ms).
+Proof. exact src_match_size. Qed.
+Print Assumptions c18_src_match_size.
+
+Theorem c18_src_get_match : forall (ms : list (list N)) chosen vars w all i,
+  Forall (fun t => length t = w) ms -> i < length ms ->
+  (length vars = w \/ (length vars = 0 /\ w = 1)) ->
+  MatchesFns.get_match (concat ms) chosen vars w all i
+    = Ok (firstn (length vars) (nth i ms []), vars).
+Proof. exact src_get_match. Qed.
+Print Assumptions c18_src_get_match.
+
+(** [choose] appends the index, [choose_all] sets the flag, nothing else changes: the interface the
+    scheduler function of the hand model ([filter]) abstracts *)
+Theorem c18_src_choose_spec : forall (m : list N) c v w a i,
+  MatchesFns.choose m c v w a i = Ok (m, c ++ [i], v, w, a) /\
+  MatchesFns.choose_all m c v w a = Ok (m, c, v, w, true).
+Proof. exact src_choose_spec. Qed.
+
+(** non-vacuity: the regenerated function on a concrete flat vector, 5 matches of width 2, two
+    variable columns, indices 3, 0, 3 chosen (cf. [c18_instantiate_example]); a variable-free rule
+    (width 1, no variable column); and an out-of-range choice panics *)
+Example c18_src_instantiate_example :
+  MatchesFns.instantiate [10; 110; 11; 111; 12; 112; 13; 113; 14; 114]%N [3; 0; 3] [1; 2]%N 2 false 99%N
+    = Ok ([[13; 113; 99]; [10; 110; 99]; [13; 113; 99]]%N, [14; 114; 11; 111; 12; 112]%N)
+  /\ MatchesFns.instantiate [7; 7; 7]%N [1] [] 1 false 7%N = Ok ([[7%N]], [7; 7]%N)
+  /\ MatchesFns.instantiate [7; 7; 7]%N [3] [] 1 false 7%N = Panic.
+Proof. vm_compute. auto. Qed.
+
+(** control structure of [step_rules_with_scheduler] the hand model assumes, REGENERATED as facts
+    (a fact whose site is no longer recognised is not defined and this file stops compiling):
+    phase order query -> re-canonicalise residual -> Matches::new -> filter_matches -> instantiate ->
+    flush -> action rules; the residual is re-canonicalised with get_canon_repr before it is offered
+    (fix of F7) and the side cell receives what instantiate returns; the compiled-rule cache is keyed
+    by (ruleset, rule name) (fix of S2); a query rule runs iff should_seek. The model's [offered]
+    is the instance of the generic shape at the regenerated switches. *)
+Theorem c18_src_step_structure :
+  MatchesFns.sched_step_order = [0; 1; 2; 3; 4; 5; 6] /\ MatchesFns.sched_residual_stored_from_instantiate = true /\
+  MatchesFns.sched_cache_key_fields = [0; 1] /\
+  forall (s : state) (r : rule) (ri : rinfo),
+    offered s r ri
+    = map (if MatchesFns.sched_residual_recanon then canon_t s else fun t => t) (ri_res ri)
+      ++ (if MatchesFns.sched_query_iff_should_seek then (if ri_seek ri then fresh s r else []) else fresh s r).
+Proof. repeat split. Qed.
+Print Assumptions c18_src_step_structure.
